@@ -42,7 +42,12 @@ func genC02Twins(t *rapid.T) C02Twins {
 	if c.Set.Kind == "stack" {
 		for i := range c.Set.Profiles {
 			if chance(t, "target-directive", 2) {
-				d := pick(t, "tdir", []string{"  #aa:dbus own bus=session name=org.twin.T", "  #aa:dbus talk bus=system name=org.twin.U label=unconfined", "  #aa:exec mmm-append"})
+				pool := []string{"  #aa:dbus own bus=session name=org.twin.T", "  #aa:dbus talk bus=system name=org.twin.U label=unconfined", "  #aa:exec mmm-append"}
+				if i+1 < len(c.Set.Profiles) {
+					// a stacked profile that stacks another one itself (no cycle: only later targets)
+					pool = append(pool, "  #aa:stack "+c.Set.Profiles[i+1].Name, "  #aa:stack X "+c.Set.Profiles[i+1].Name)
+				}
+				d := pick(t, "tdir", pool)
 				at := rapid.IntRange(0, len(c.Set.Profiles[i].Body)).Draw(t, "tdirat")
 				body := append([]string{}, c.Set.Profiles[i].Body[:at]...)
 				body = append(body, d)
